@@ -8,6 +8,7 @@ Static rules over the resolved program (clang front end facts; no FEAT3 code is 
  * E13.cycle-dispatch   apply() maps MultiGridCycle::X to _apply_cycle_x
  * E7.hand-over         rhs(top) := vec_def before the cycle, vec_cor := sol(top) after it, vec_def const
  * E1.level-roles       every operation on level objects uses the vectors/operators of the right level and role
+ * E1.level-setup-roles push_level argument -> MultiGridLevelStd ctor parameter -> member -> getter keep their role (pre/post/peak/…)
  * E8.def-fresh / E7.filter-def / E7.filter-cor / E7.filter-rhs / E8.sol-epoch
                         freshness typestate of def = rhs - A*sol and of sol per level, summary based
  * E7.peak-fallback     peak smoothing uses the peak smoother, else pre then post (each if given)
@@ -22,7 +23,7 @@ import re
 import featlib
 from featlib import Check, render, rel
 import mgfacts
-from mgfacts import strip, walk, regex_nfa, cfg_nfa, lang_diff
+from mgfacts import strip, walk, regex_nfa, cfg_nfa, lang_diff, FnView
 import mgmodel
 from mgmodel import MGView, classify, args_by_name, neg_of, is_one
 import mgflow
@@ -649,6 +650,109 @@ def check_roles(ck, view, inst_prefix, events):
 
 
 # -------------------------------------------------------------------------------------------------
+# level set-up: roles along push_level -> MultiGridLevelStd constructor -> members -> getters
+# -------------------------------------------------------------------------------------------------
+
+ROLE_TOKENS = (("pre", "pre"), ("post", "post"), ("peak", "peak"), ("crs", "coarse"), ("coarse", "coarse"), ("matrix", "matrix"),
+               ("filter", "filter"), ("transfer", "transfer"), ("trans", "transfer"), ("operat", "transfer"), ("operator", "transfer"))
+
+
+def role_of_name(name):
+    """role of an identifier from its name tokens (pre/post/peak smoother, coarse solver, matrix, filter, transfer)"""
+    toks = [t for t in re.split(r"[_\W]+", (name or "").lower()) if t]
+    for t in toks:
+        for key, role in ROLE_TOKENS:
+            if t == key:
+                return role
+    for t in toks:
+        for key, role in ROLE_TOKENS:
+            if len(key) >= 4 and t.startswith(key):
+                return role
+    return None
+
+
+def check_level_setup(ck, facts, hier_cls, fns_h, sc):
+    """the object a caller hands to push_level as pre-/post-/peak-smoother, coarse solver, matrix, filter, transfer reaches the
+    getter of the same role: argument role == constructor parameter role (positional forwarding through make_shared / new),
+    constructor parameter role == member role (initialiser list), member role == getter role"""
+    rule = "E1.level-setup-roles"
+    targs = hier_cls[hier_cls.index("<"):] if "<" in hier_cls else ""
+    std_cls = "FEAT::Solver::MultiGridLevelStd" + targs
+    std_fns = [f for f in facts.functions if f.tk != "pattern" and f.cls == std_cls]
+    ctors = [f for f in std_fns if f.d.get("ctor") and f.params]
+    if not ctors:
+        ck.incomplete(rule, "%s: no constructor of MultiGridLevelStd instantiated" % sc)
+        return
+    # (1) forwarding calls in push_level
+    pushes = [f for f in facts.functions if f.tk != "pattern" and f.cls == hier_cls and f.name == "push_level" and len(f.params) >= 3]
+    if not pushes:
+        ck.incomplete(rule, "%s: no push_level(matrix, filter, ...) overload instantiated" % sc)
+    for f in sorted(pushes, key=lambda f: len(f.params)):
+        view = FnView(f)
+        sites = []
+        for n in walk(f.body):
+            if n.get("k") == "Call" and n.get("callee", "").endswith("make_shared") and "MultiGridLevelStd" in (n.get("cfull") or "").split(",")[0]:
+                sites.append((n, None))
+            elif n.get("k") in ("Construct", "New", "TempObj") and "MultiGridLevelStd" in (n.get("ccls") or n.get("callee") or ""):
+                if n.get("a") and len(n.get("a")) >= 3:
+                    sites.append((n, n.get("pn")))
+        inst = "%s::push_level/%d" % (sc.replace("MultiGrid<", "MultiGridHierarchy<"), len(f.params))
+        if not sites:
+            ck.incomplete(rule, "%s: construction of the MultiGridLevelStd object not found (make_shared / new)" % inst)
+            continue
+        for n, pn in sites:
+            args = n.get("a", [])
+            if pn is None:
+                cands = [c for c in ctors if len(c.params) == len(args)] or sorted([c for c in ctors if len(c.params) > len(args)], key=lambda c: len(c.params))[:1]
+                if len(cands) != 1:
+                    ck.incomplete(rule, "%s: constructor of MultiGridLevelStd with %d parameters not identified" % (inst, len(args)))
+                    continue
+                pn = [p["n"] for p in cands[0].params]
+            for k, a in enumerate(args):
+                av = view.value(a)
+                while av.get("k") in ("Construct", "TempObj") and len(av.get("a", [])) == 1:
+                    av = view.value(av["a"][0])      # copy / move construction of the by-value argument
+                if av.get("k") == "Call" and av.get("callee", "").endswith("std::move") and av.get("a"):
+                    av = view.value(av["a"][0])
+                if k >= len(pn):
+                    break
+                if av.get("k") in ("Null",) or (av.get("k") in ("Construct", "TempObj") and not av.get("a")):
+                    continue
+                nm = av.get("n") if av.get("k") == "Ref" else None
+                ra, rp = role_of_name(nm), role_of_name(pn[k])
+                if nm is None or ra is None or rp is None:
+                    ck.incomplete(rule, "%s: argument %d (%s -> constructor parameter %s): role not recognisable from the names" % (inst, k + 1, render(a), pn[k]))
+                    continue
+                ck.ob(rule, "%s/%s" % (inst, ra), ra == rp,
+                      "argument %d `%s` (%s) is received by constructor parameter `%s` (%s)%s" % (k + 1, nm, ra, pn[k], rp,
+                      "" if ra == rp else ": forwarded positionally into the wrong slot — the %s object is used as %s" % (ra, rp)), f.file, n.get("l"))
+    # (2) constructor initialisers, (3) getters
+    for c in sorted(ctors, key=lambda c: len(c.params)):
+        inst = "%s::MultiGridLevelStd/%d" % (sc.replace("MultiGrid<", "MultiGridLevelStd<"), len(c.params))
+        pd = {p["d"]: p["n"] for p in c.params}
+        for ini in c.d.get("inits") or []:
+            refs = [x for x in walk(ini.get("init")) if x.get("k") == "Ref" and x.get("d") in pd]
+            if not refs or not ini.get("member"):
+                continue
+            rm, rp = role_of_name(ini["member"]), role_of_name(refs[0]["n"])
+            if rm is None or rp is None:
+                ck.incomplete(rule, "%s: member %s initialised from %s: role not recognisable" % (inst, ini["member"], refs[0]["n"]))
+                continue
+            ck.ob(rule, "%s/%s" % (inst, rm), rm == rp, "member `%s` (%s) is initialised from parameter `%s` (%s)" % (ini["member"], rm, refs[0]["n"], rp), c.file, ini.get("l"))
+    for g in sorted(std_fns, key=lambda g: g.name):
+        if not g.name.startswith("get_") or g.params:
+            continue
+        rg = role_of_name(g.name[4:])
+        mem = [x for x in walk(g.body) if x.get("k") == "Member" and strip(x.get("b") or {"k": "This"}).get("k") == "This"]
+        inst = "%s::%s" % (sc.replace("MultiGrid<", "MultiGridLevelStd<"), g.name)
+        if rg is None or len(mem) != 1 or role_of_name(mem[0].get("n")) is None:
+            ck.incomplete(rule, "%s: getter does not return one member with a recognisable role" % inst)
+            continue
+        rm = role_of_name(mem[0]["n"])
+        ck.ob(rule, inst, rg == rm, "returns member `%s` (%s)" % (mem[0]["n"], rm), g.file, g.line)
+
+
+# -------------------------------------------------------------------------------------------------
 # apply(): dispatch and hand-over
 # -------------------------------------------------------------------------------------------------
 
@@ -943,6 +1047,7 @@ def run(tier):
     ck.rule("E13.cycle-dispatch", "apply() calls _apply_cycle_v/f/w exactly under case MultiGridCycle::V/F/W; breaks for the swapped cycle types", 3)
     ck.rule("E7.hand-over", "vec_def is copied into the top-level rhs before every cycle call, the top-level solution is copied into vec_cor on every normal exit after the cycle, vec_def is const; breaks for every input", 3)
     ck.rule("E1.level-roles", "every call on level objects (matrix, filter, transfer, smoother, level vectors) uses operands of the right level and role: def := rhs - A sol, rest(def@l -> rhs@l+1), prol(sol@l+1 -> cor@l), filter_def on dual and filter_cor on primal vectors with the filter of the vector's own level, pre-smoother (sol,rhs), post/peak smoother (cor,def); breaks for every non-trivial hierarchy / non-trivial filter", 35)
+    ck.rule("E1.level-setup-roles", "the object handed to MultiGridHierarchy::push_level as pre-/post-/peak-smoother, coarse solver, matrix, filter or transfer reaches the getter of the same role: push_level argument role == MultiGridLevelStd constructor parameter role at the same position (forwarding through make_shared/new is positional), constructor parameter role == initialised member role, member role == getter role (roles from the identifier tokens pre/post/peak/coarse|crs/matrix/filter/transfer|trans); breaks whenever post- and peak-smoother (or any two same-typed arguments) are different objects or one of them is null", 27)
     ck.rule("E8.def-fresh", "def == rhs - A*sol (fresh) at every smoother input, restriction and adaptive step-length product, for every cycle, level region, smoother presence combination and coarse-grid-correction mode; breaks when a smoother or the restriction sees a defect of an older iterate", 14)
     ck.rule("E7.filter-def", "every freshly computed defect is filter_def-ed before it is smoothed or restricted; breaks for any filter that is not the identity", 14)
     ck.rule("E7.filter-cor", "every prolongated correction (and the identity coarse solution) is filter_cor-ed before it is added to / used as a solution; breaks for any filter that is not the identity", 11)
@@ -1022,6 +1127,9 @@ def run(tier):
         # 4. peak fallback, adaptive omega
         check_peak_fallback(ck, views["_apply_smooth_peak"], "%s::_apply_smooth_peak" % sc)
         check_adapt_omega(ck, views["_apply_prol"], "%s::_apply_prol" % sc)
+        # 4b. level set-up roles
+        hier_cls = cls.replace("FEAT::Solver::MultiGrid<", "FEAT::Solver::MultiGridHierarchy<", 1)
+        check_level_setup(ck, facts, hier_cls, None, sc)
         # 5. freshness typestate (summaries of the helpers composed along the cycle CFGs)
         mgflow.check_flow(ck, sc, views, events, pvars)
 
